@@ -45,7 +45,7 @@ SCALE = 1024.0
 NOISE = 2e-7
 
 # ----------------------------------------------------------------- process state
-G = {'script': None, 'log': None, 'alpha': None}
+G = {'script': None, 'log': None, 'alpha': None, 'seen_u': None}
 TRACE_KEY = 'trace'
 
 
@@ -57,25 +57,66 @@ def alpha():
 
 
 # ------------------------------------------------------------ building circuits
-def mk_op(spec):
-    """(gid, params_scaled, loc) | ('B', circspec, loc)"""
+def reparam_value(a, b, i):
+    """the i-th parameter (scaled integer) of the re-parameterisation (a, b)"""
+    return (a * i + b) % 6001 - 3000
+
+
+def mk_op(spec, gates=None):
+    """(gid, params_scaled, loc) | ('B', circspec, loc[, outer_params_scaled])
+
+    A block operation normally carries the parameters frozen inside its
+    CircuitGate; with a fourth entry the OPERATION's parameters are those (the
+    inner circuit keeps its own: the state of a partitioned circuit that was
+    re-parameterised afterwards).  `gates` (a dict) makes equal body specs share
+    ONE CircuitGate object, so the same gate object occurs several times with
+    different operation parameters."""
     from bqskit.ir.gates import CircuitGate
     from bqskit.ir.operation import Operation
     if spec[0] == 'B':
-        body = mk_circ(spec[1])
-        return Operation(CircuitGate(body), list(spec[2]), list(body.params))
+        key = json.dumps(spec[1], sort_keys=True)
+        if gates is not None and key in gates:
+            gate = gates[key]
+        else:
+            gate = CircuitGate(mk_circ(spec[1]))
+            if gates is not None:
+                gates[key] = gate
+        if len(spec) > 3 and spec[3] is not None:
+            ps = [p / SCALE for p in spec[3]]
+        else:
+            ps = list(gate._circuit.params)
+        return Operation(gate, list(spec[2]), ps)
     gid, ps, loc = spec
     return Operation(alpha().by_gid[gid], list(loc), [p / SCALE for p in ps])
 
 
+def apply_reparam(c, step):
+    """('all', a, b): Circuit.set_params of the whole vector;
+    ('one', i, v): Circuit.set_param of one entry (index modulo the length)"""
+    n = c.num_params
+    if n == 0:
+        return
+    if step[0] == 'all':
+        c.set_params([reparam_value(step[1], step[2], i) / SCALE
+                      for i in range(n)])
+    else:
+        c.set_param(step[1] % n, step[2] / SCALE)
+
+
 def mk_circ(cs):
     c = Circuit(len(cs['radixes']), list(cs['radixes']))
+    gates = {}
     for how, cyc, ospec in cs['ops']:
-        op = mk_op(ospec)
+        op = mk_op(ospec, gates)
         if how == 'a':
             c.append(op)
         else:
             c.insert(cyc, op)
+    # the circuit is re-parameterised from the outside AFTER its blocks were
+    # formed: block operations then carry other parameters than the circuits
+    # frozen inside their gates
+    for step in cs.get('reparam', ()):
+        apply_reparam(c, step)
     return c
 
 
@@ -377,6 +418,8 @@ def apply_act(a, circuit, data):
         circuit.replace((a[1], a[2]), mk_op(a[3]))
     elif k == 'setcirc':
         circuit.become(mk_circ(a[1]))
+    elif k == 'reparam':
+        apply_reparam(circuit, ('all', a[1], a[2]))
     elif k == 'placement':
         data.placement = list(a[1])
     elif k == 'imap':
@@ -799,6 +842,8 @@ def t_act(a, tx):
         return f'(replace {a[1]} {a[2]} {tx.op(mk_op(a[3]))})'
     if k == 'setcirc':
         return f'(setcirc {tx.circ(mk_circ(a[1]))})'
+    if k == 'reparam':
+        return f'(reparam {a[1]} {a[2]})'
     if k in ('placement', 'imap', 'fmap', 'gateset'):
         return f'({k}' + ''.join(f' {x}' for x in a[1]) + ')'
     if k == 'seed':
@@ -898,7 +943,23 @@ def frac_text(x):
 # =====================================================================
 Q1 = [1, 2, 3, 4, 5, 18]          # X H T RZ U3 Tdg
 Q2 = [6, 7, 8, 9]                 # CNOT CZ RZZ SWAP
-NPAR = {1: 0, 2: 0, 3: 0, 4: 1, 5: 3, 18: 0, 6: 0, 7: 0, 8: 1, 9: 0, 10: 0}
+NPAR = {1: 0, 2: 0, 3: 0, 4: 1, 5: 3, 18: 0, 6: 0, 7: 0, 8: 1, 9: 0, 10: 0,
+        11: 0, 12: 0, 13: 0, 14: 0}
+
+
+def rdx(nq):
+    """a width (qubits) or a list of radixes -> list of radixes"""
+    return [2] * nq if isinstance(nq, int) else list(nq)
+
+
+def g_radixes(rng, nq, pmixed=0.25):
+    """qubits, or (a quarter of the circuits) qubits and qutrits: gates 11
+    (shift), 12 (CSUM), 13/14 (constant unitaries on qubit x qutrit, which the
+    DEFAULT collection filter of ForEachBlockPass selects) become possible and
+    the radixes of sub-circuits / sub-models differ from qudit to qudit"""
+    if rng.random() >= pmixed:
+        return [2] * nq
+    return [3 if rng.random() < 0.4 else 2 for _ in range(nq)]
 
 
 def g_params(rng, gid):
@@ -906,39 +967,118 @@ def g_params(rng, gid):
 
 
 def g_plain_op(rng, nq, max_arity=3):
+    rad = rdx(nq)
+    nq = len(rad)
     ar = rng.choice([1, 1, 2, 2, 3]) if nq >= 3 and max_arity >= 3 else \
         rng.choice([1, 2]) if nq >= 2 and max_arity >= 2 else 1
-    gid = rng.choice(Q1) if ar == 1 else rng.choice(Q2) if ar == 2 else 10
     loc = tuple(rng.sample(range(nq), ar))
+    rs = tuple(rad[q] for q in loc)
+    if ar == 3 and rs != (2, 2, 2):
+        ar, loc, rs = 2, loc[:2], rs[:2]
+    if ar == 1:
+        gid = rng.choice(Q1) if rs == (2,) else 11
+    elif ar == 2:
+        gid = {(2, 2): None, (3, 3): 12, (2, 3): 13, (3, 2): 14}[rs]
+        if gid is None:
+            gid = rng.choice(Q2)
+    else:
+        gid = 10
     return (gid, g_params(rng, gid), loc)
 
 
-def g_body(rng, k):
+def g_body(rng, k, parametric=False):
+    rad = rdx(k)
     n = rng.randint(1, 4)
-    return {'radixes': [2] * k,
-            'ops': [('a', 0, g_plain_op(rng, k)) for _ in range(n)]}
+    ops = [('a', 0, g_plain_op(rng, rad)) for _ in range(n)]
+    qubits = [q for q, r in enumerate(rad) if r == 2]
+    if parametric and qubits and not any(spec_nparams(o[2]) for o in ops):
+        gid = rng.choice([4, 5])
+        ops.insert(rng.randint(0, len(ops)),
+                   ('a', 0, (gid, g_params(rng, gid), (rng.choice(qubits),))))
+    return {'radixes': rad, 'ops': ops}
 
 
-def g_circuit(rng, nq, nops, pblock=0.0, nested=0.1):
+def spec_nparams(ospec):
+    """number of parameters of an operation spec"""
+    if ospec[0] == 'B':
+        return sum(spec_nparams(o[2]) for o in ospec[1]['ops'])
+    return NPAR[ospec[0]]
+
+
+def g_outer(rng, body):
+    """operation parameters differing from the ones frozen in the body"""
+    n = spec_nparams(('B', body, ()))
+    return [rng.randint(-3000, 3000) for _ in range(n)]
+
+
+def g_reparam(rng):
+    """re-parameterisation steps applied after the circuit (its blocks) exists"""
+    steps = []
+    for _ in range(rng.randint(1, 2)):
+        if rng.random() < 0.7:
+            steps.append(('all', rng.randint(1, 900), rng.randint(0, 6000)))
+        else:
+            steps.append(('one', rng.randint(0, 40), rng.randint(-3000, 3000)))
+    return steps
+
+
+def g_circuit(rng, nq, nops, pblock=0.0, nested=0.1, preparam=0.35,
+              parametric=0.5):
+    """`nq`: a number of qubits or a list of radixes.
+    `preparam`: probability that the finished circuit is re-parameterised
+    from the outside (set_params / set_param), that a block operation is given
+    its own parameters, and that a block re-uses the CircuitGate object of an
+    earlier block with other parameters - in all three cases the operation's
+    parameters differ from those frozen inside its CircuitGate."""
+    rad = rdx(nq)
+    nq = len(rad)
     ops = []
+    bodies = []
     for _ in range(nops):
         if rng.random() < pblock:
             k = rng.randint(1, min(3, nq))
             loc = rng.sample(range(nq), k)
             if rng.random() < 0.7:
                 loc.sort()
-            body = g_body(rng, k)
-            if rng.random() < nested and k >= 2:
-                body['ops'].append(('a', 0, ('B', g_body(rng, 1), (rng.randrange(k),))))
+            brad = [rad[q] for q in loc]
+            same = [b for b in bodies if b['radixes'] == brad]
+            if same and rng.random() < preparam * 0.7:
+                body = rng.choice(same)        # the same CircuitGate object again
+            else:
+                body = g_body(rng, brad, rng.random() < parametric)
+                if rng.random() < nested and k >= 2:
+                    iq = rng.randrange(k)
+                    inner = g_body(rng, [brad[iq]], rng.random() < parametric)
+                    io = ('B', inner, (iq,))
+                    if rng.random() < preparam:
+                        io = io + (g_outer(rng, inner),)
+                    body['ops'].append(('a', 0, io))
+                bodies.append(body)
             o = ('B', body, tuple(loc))
+            if rng.random() < preparam:
+                o = o + (g_outer(rng, body),)
         else:
-            o = g_plain_op(rng, nq)
+            o = g_plain_op(rng, rad)
         r = rng.random()
         if r < 0.7 or not ops:
             ops.append(('a', 0, o))
         else:
             ops.append(('i', rng.randint(-1, len(ops)), o))
-    return {'radixes': [2] * nq, 'ops': ops}
+    cs = {'radixes': rad, 'ops': ops}
+    if rng.random() < preparam:
+        cs['reparam'] = g_reparam(rng)
+    return cs
+
+
+def has_param_blocks(cs):
+    """the circuit spec contains a block operation with parameters"""
+    return any(o[2][0] == 'B' and spec_nparams(o[2]) > 0 for o in cs['ops'])
+
+
+def reparam_twin(rng, cs):
+    """the same circuit, re-parameterised after its blocks were formed"""
+    return dict(cs, reparam=list(cs.get('reparam', ())) + [
+        ('all', rng.randint(1, 900), rng.randint(0, 6000))])
 
 
 def g_edges(rng, n):
@@ -955,9 +1095,13 @@ def g_edges(rng, n):
 def g_pdata(rng, nq):
     """spec of the edits applied to PassData(circuit) before the run"""
     acts = []
+    rad = rdx(nq)
+    nq = len(rad)
     n = nq + rng.choice([0, 0, 1, 2])
     gs = rng.choice([[5, 6], [1, 2, 3, 4, 6], [5, 7, 10], [2, 6, 9, 5], [6]])
-    acts.append(('model', n, g_edges(rng, n), gs, [2] * n))
+    if rad != [2] * nq:
+        gs = rng.choice([gs, gs + [12, 13], [11, 12, 13, 14, 6], [14, 5]])
+    acts.append(('model', n, g_edges(rng, n), gs, rad + [2] * (n - nq)))
     if rng.random() < 0.6:
         pl = rng.sample(range(n), nq)
         if rng.random() < 0.5:
@@ -975,23 +1119,34 @@ def g_pdata(rng, nq):
     acts.append(('put', 'bits', [rng.randint(0, 1) for _ in range(rng.randint(0, 5))]))
     if rng.random() < 0.5:
         acts.append(('put', 'ForEachBlockPass_pass_down_x', rng.randint(0, 9)))
-    if rng.random() < 0.5:
+    r = rng.random()
+    if r < 0.4:
         acts.append(('put', 'ForEachBlockPass_specific_pass_down_y',
                      {i: [i, 7] for i in rng.sample(range(5), 3)}))
+    elif r < 0.55:
+        # a LIST: `i in value` is membership, `value[i]` is indexing
+        acts.append(('put', 'ForEachBlockPass_specific_pass_down_y',
+                     [rng.randint(0, 4) for _ in range(rng.randint(1, 4))]))
     return acts
 
 
 def g_top_leaf(rng, lid, nq):
+    rad = rdx(nq)
+    nq = len(rad)
     acts = [('push', TRACE_KEY, lid)]
     r = rng.random()
-    if r < 0.12:
+    if r < 0.09:
         pass
+    elif r < 0.12:      # the pass replaces the whole circuit (blocks included)
+        acts.append(('setcirc', g_circuit(rng, rad, rng.randint(0, 4), pblock=0.4)))
     elif r < 0.4:
-        acts.append(('append', g_plain_op(rng, nq)))
-    elif r < 0.5:
+        acts.append(('append', g_plain_op(rng, rad)))
+    elif r < 0.46:
         acts.append(('poplast',))
+    elif r < 0.5:       # a parameter-tuning pass: blocks keep their gates
+        acts.append(('reparam', rng.randint(1, 900), rng.randint(0, 6000)))
     elif r < 0.56:
-        acts.append(('insert', rng.choice([0, -1, 1, 5]), g_plain_op(rng, nq)))
+        acts.append(('insert', rng.choice([0, -1, 1, 5]), g_plain_op(rng, rad)))
     elif r < 0.62:
         acts.append(('imap', rng.sample(range(nq), nq)))
     elif r < 0.68:
@@ -1010,7 +1165,8 @@ def g_top_leaf(rng, lid, nq):
         acts.append(('put', rng.choice(['u1', 'u2', 'calculate_error_bound']),
                      rng.choice([0, 1, 5, 'a', None, [1, 2]])))
     elif r < 0.93:
-        acts.append(('del', rng.choice(['u1', 'u2'])))
+        # (without 'bits' / 'c1' the harness predicates raise)
+        acts.append(('del', rng.choice(['u1', 'u2', 'u1', 'u2', 'bits', 'c1'])))
     elif r < 0.97:
         acts.append(('incr', 'u3', rng.randint(1, 3)))
     else:
@@ -1030,8 +1186,10 @@ def g_body_leaf(rng, lid):
         acts.append(('append', (4, (rng.randint(1, 200),), (0,))))   # small RZ
     elif r < 0.65:
         acts += [('append', (1, (), (0,))), ('append', (1, (), (0,)))]
-    elif r < 0.8:
+    elif r < 0.75:
         acts.append(('poplast',))
+    elif r < 0.8:
+        acts.append(('reparam', rng.randint(1, 900), rng.randint(0, 6000)))
     elif r < 0.86:
         acts.append(('append', (rng.choice(Q2[:2]), (), (0, 1))))
     elif r < 0.9:
@@ -1049,7 +1207,8 @@ def g_body_leaf(rng, lid):
 
 class CaseGen:
     def __init__(self, rng, nq):
-        self.rng, self.nq = rng, nq
+        self.rng, self.rad = rng, rdx(nq)
+        self.nq = len(self.rad)
         self.leaves = {}
         self.conds, self.collects, self.rfilts = {}, {}, {}
         self.min_pf = 99      # fewest branches of a pick_first ParallelDo
@@ -1058,7 +1217,7 @@ class CaseGen:
     def leaf(self, body):
         lid = len(self.leaves)
         self.leaves[lid] = (g_body_leaf(self.rng, lid) if body
-                            else g_top_leaf(self.rng, lid, self.nq))
+                            else g_top_leaf(self.rng, lid, self.rad))
         return ('leaf', lid)
 
     def incr_leaf(self, key):
@@ -1143,10 +1302,12 @@ class CaseGen:
             pf = rng.random() < 0.35
             if pf:
                 self.min_pf = min(self.min_pf, n)
-            return ('par', ws, self.cond(True), pf)
+            # less_than is called by the pass itself (not inside a job): at the
+            # top level it may be scripted
+            return ('par', ws, self.cond(worker), pf)
         return self.foreach(depth - 1)
 
-    def foreach(self, depth, calc=None, rfilter=None, collect=None):
+    def foreach(self, depth, calc=None, rfilter=None, collect=None, body=None):
         rng = self.rng
         if collect is None:
             if rng.random() < 0.5:
@@ -1169,8 +1330,14 @@ class CaseGen:
                 rfilter = ('fn', i)
         if calc is None:
             calc = rng.random() < 0.5
-        return ('foreach', calc, collect, rfilter,
-                self.tree(depth, True, True, allow_rt=rng.random() < 0.3))
+        if body is None:
+            body = self.tree(depth, True, True, allow_rt=rng.random() < 0.3)
+        return ('foreach', calc, collect, rfilter, body)
+
+    def acts_leaf(self, acts):
+        lid = len(self.leaves)
+        self.leaves[lid] = [('push', TRACE_KEY, lid)] + list(acts)
+        return ('leaf', lid)
 
     def case(self, tree, circ, pd, kind):
         return {'kind': kind, 'circ': circ, 'pdata': pd, 'leaves': self.leaves,
@@ -1192,7 +1359,7 @@ NAMED = ['always', 'less-than', 'less-than-multi', 'less-than-many',
 
 
 def gen_control_case(rng):
-    nq = rng.randint(1, 4)
+    nq = g_radixes(rng, rng.randint(1, 4))
     g = CaseGen(rng, nq)
     tree = g.tree(rng.randint(2, 4))
     circ = g_circuit(rng, nq, rng.randint(0, 6), pblock=0.25)
@@ -1200,7 +1367,7 @@ def gen_control_case(rng):
 
 
 def gen_foreach_case(rng, named=None, calc=None):
-    nq = rng.randint(2, 5)
+    nq = g_radixes(rng, rng.randint(2, 5))
     g = CaseGen(rng, nq)
     rf = ('named', named) if named else None
     fe = g.foreach(rng.randint(0, 2), calc=calc, rfilter=rf)
@@ -1214,6 +1381,53 @@ def gen_foreach_case(rng, named=None, calc=None):
         tree = ('seq', [t if t != 'clearall' else ('clearall',) for t in tree[1]])
     circ = g_circuit(rng, nq, rng.randint(1, 8), pblock=0.6)
     return g.case(tree, circ, g_pdata(rng, nq), 'foreach')
+
+
+def gen_reparam_case(rng):
+    """ForEachBlockPass (alone, twice with a parameter-tuning leaf in between,
+    nested, under DoThenDecide / ParallelDo) on circuits whose block operations
+    carry other parameters than the circuits frozen in their CircuitGates, with
+    bodies that do nothing / only look / perturb parameters / replace the whole
+    circuit / are arbitrary"""
+    nq = rng.randint(2, 4)
+    g = CaseGen(rng, nq)
+    circ = g_circuit(rng, nq, rng.randint(2, 7), pblock=0.7, nested=0.3,
+                     preparam=0.9, parametric=1.0)
+    always = ('named', 'always') if rng.random() < 0.5 else None
+
+    def body(width=None):
+        r = rng.random()
+        if r < 0.3:
+            return g.ident_leaf()
+        if r < 0.45:
+            return g.acts_leaf([('reparam', rng.randint(1, 900),
+                                 rng.randint(0, 6000))])
+        if r < 0.6 and width is not None:
+            return g.acts_leaf([('setcirc', g_circuit(
+                rng, width, rng.randint(0, 3), pblock=0.3, nested=0.0))])
+        if r < 0.75:          # nested: the blocks inside the blocks
+            return g.foreach(0, rfilter=('named', 'always'),
+                             body=g.ident_leaf() if rng.random() < 0.5 else None)
+        return None
+
+    k = rng.randrange(5)
+    if k == 0:
+        tree = g.foreach(1, rfilter=always, body=body())
+    elif k == 1:
+        w = rng.randint(1, min(3, nq))
+        i = len(g.collects)
+        g.collects[i] = ('arity', w)
+        tree = g.foreach(1, rfilter=always, collect=('fn', i), body=body(w))
+    elif k == 2:
+        tune = g.acts_leaf([('reparam', rng.randint(1, 900), rng.randint(0, 6000))])
+        tree = ('seq', [g.foreach(1, rfilter=('named', 'always'), body=body()),
+                        tune, g.foreach(1, rfilter=always, body=body())])
+    elif k == 3:
+        tree = ('dtd', g.cond(False), g.foreach(1, rfilter=always, body=body()))
+    else:
+        tree = ('par', [g.foreach(0, rfilter=always, body=body()), g.leaf(False)],
+                g.cond(True), False)
+    return g.case(tree, circ, g_pdata(rng, nq), 'reparam')
 
 
 def malformed_case(rng):
@@ -1243,6 +1457,13 @@ def malformed_case(rng):
 # =====================================================================
 # running and comparing
 # =====================================================================
+def count_own_params(c):
+    """block operations whose parameters differ from those frozen in their gate"""
+    from bqskit.ir.gates import CircuitGate
+    return sum(1 for op in c if isinstance(op.gate, CircuitGate)
+               and list(op.params) != list(op.gate._circuit.params))
+
+
 def build_real(case):
     circuit = mk_circ(case['circ'])
     data = PassData(circuit)
@@ -1820,51 +2041,120 @@ def cell_ops(c):
     return out
 
 
+class ReadUnitary(BasePass):
+    """a body that only READS: records the unitary (bqskit's own simulation) of
+    the circuit it is handed, per block point (in-process runs only)"""
+
+    async def run(self, circuit, data):
+        pt = data._data.get('point')
+        if G.get('seen_u') is not None and pt is not None:
+            G['seen_u'].append(((int(pt[0]), int(pt[1])),
+                                np.array(circuit.get_unitary().numpy)))
+
+
+def expected_text(before, repl):
+    """expanded text of `before` with the operations at the cells of `repl`
+    ({(cycle, min qudit): op text}) replaced; the replacements sit on the same
+    locations, so the grid is unchanged"""
+    cyc = []
+    for k in range(before.num_cycles):
+        seen = {}
+        for q in range(before.num_qudits):
+            if not before.is_point_idle((k, q)):
+                op = before[k, q]
+                seen.setdefault(id(op), op)
+        ops = sorted(seen.values(), key=lambda o: min(o.location))
+        cyc.append('+'.join(repl.get((k, min(o.location))) or x_op(o)
+                            for o in ops))
+    return ','.join(map(str, before.radixes)) + ':' + '/'.join(cyc)
+
+
+def g_oracle_bodies(rng, width):
+    """1-3 leaves that never raise on a non-empty block; kinds: identity /
+    read-only, equivalent rewrite (XX), growing, shrinking, bounded and
+    unbounded perturbation (small RZ, re-parameterisation), replacement of the
+    whole circuit (only when every collected block has `width` qudits)"""
+    bodies = []
+    kind = rng.random()
+    if kind < 0.2:
+        return [[]], 'identity'
+    for _ in range(rng.randint(1, 3)):
+        r = rng.random()
+        if r < 0.25:
+            acts = [('append', (4, (rng.randint(1, 120),), (0,)))]
+        elif r < 0.4:
+            acts = [('append', (1, (), (0,))), ('append', (1, (), (0,)))]
+        elif r < 0.6:
+            acts = [('poplast',), ('append', (2, (), (0,)))]
+        elif r < 0.7:
+            acts = [('reparam', rng.randint(1, 900), rng.randint(0, 6000))]
+        elif r < 0.8 and width is not None:
+            acts = [('setcirc', g_circuit(rng, width, rng.randint(0, 3),
+                                          pblock=0.2, nested=0.0))]
+        else:
+            acts = []
+        bodies.append(acts)
+    # make shrinking possible: two pops on big blocks
+    if rng.random() < 0.2:
+        bodies[0] = [('append', (3, (), (0,))), ('poplast',), ('poplast',)]
+    return bodies, 'mixed'
+
+
 def oracle_foreach(ck, rng, n, tables):
-    """body exactly once per selected block; exactly the accepted results
-    written back at the originals' points; everything else identical and in
-    place; reported error bound vs measured distance"""
+    """what the body is handed = the collected operation (gate AND current
+    parameters); body exactly once per selected block; exactly the accepted
+    results written back at the originals' points; everything else identical
+    and in place; the whole circuit's unitary = the initial one with exactly the
+    accepted results substituted (identity body: unchanged); reported error
+    bound vs measured distance.  A third of the circuits are re-parameterised
+    after their blocks were formed (operation parameters differ from the ones
+    frozen in the CircuitGates, the same gate object occurs with several
+    parameter vectors)."""
     from bqskit.ir.gates import CircuitGate
     from bqskit.passes.control import ForEachBlockPass
+    from bqskit.passes.control.foreach import default_collection_filter
     import bqskit.runtime.worker as W
+    pending = None
     for it in range(n):
         nq = rng.randint(2, 4)
-        cs = g_circuit(rng, nq, rng.randint(2, 7), pblock=0.6, nested=0.0)
+        rad = g_radixes(rng, nq)
+        heavy = it % 3 == 0
+        if pending is not None:
+            # the circuit of the previous case again, re-parameterised
+            rad, cs = pending
+            nq = len(rad)
+            pending = None
+        else:
+            cs = g_circuit(rng, rad, rng.randint(2, 7), pblock=0.6, nested=0.0,
+                           preparam=0.9 if heavy else 0.3,
+                           parametric=1.0 if heavy else 0.5)
+            if has_param_blocks(cs) and rng.random() < 0.4:
+                pending = (rad, reparam_twin(rng, cs))
         circuit = mk_circ(cs)
         data = PassData(circuit)
-        pd = [a for a in g_pdata(rng, nq) if a[0] != 'error']
+        pd = [a for a in g_pdata(rng, rad) if a[0] != 'error']
         for a in pd:
             apply_act(a, circuit, data)
-        from bqskit.passes.control.foreach import default_collection_filter
         name = NAMED[it % len(NAMED)]
-        col_spec = rng.choice([None, ('block',), ('all',), ('arity', 2),
-                               ('minq', 0), ('notgids', [6, 7])])
-        # body: 1-3 leaves that never raise on any width
-        bodies = []
-        for lid in range(rng.randint(1, 3)):
-            r = rng.random()
-            if r < 0.35:
-                acts = [('append', (4, (rng.randint(1, 120),), (0,)))]
-            elif r < 0.55:
-                acts = [('append', (1, (), (0,))), ('append', (1, (), (0,)))]
-            elif r < 0.8:
-                acts = [('poplast',), ('append', (2, (), (0,)))]
-            else:
-                acts = []
-            bodies.append(acts)
-        # make shrinking possible: bodies starting with two pops on big blocks
-        if rng.random() < 0.4:
-            bodies[0] = [('append', (3, (), (0,))), ('poplast',), ('poplast',)] \
-                if rng.random() < 0.5 else bodies[0]
-        leaves = [ActLeaf(i, a) for i, a in enumerate(bodies)]
+        width = rng.choice([None, None, 1, 2, 3])
+        if width is not None and width <= nq and rad == [2] * nq:
+            col_spec = ('arity', width)
+        else:
+            width = None
+            col_spec = rng.choice([None, ('block',), ('all',), ('arity', 2),
+                                   ('minq', 0), ('notgids', [6, 7])])
+        bodies, bkind = g_oracle_bodies(rng, width)
+        leaves = [ReadUnitary()] + [ActLeaf(i, a) for i, a in enumerate(bodies)]
         calc = it % 2 == 0
         before = circuit.copy()
         cells0 = cell_ops(before)
         U0 = before.get_unitary()
+        U0_own = unitary_x(x_circ(before))
         E0 = float(data.error)
         col = None if col_spec is None else CollectFn(col_spec)
         p = ForEachBlockPass(leaves, calc, col, name)
         G['log'] = []
+        G['seen_u'] = []
         W._worker = FakeRuntime([])
         try:
             asyncio.run(p.run(circuit, data))
@@ -1874,24 +2164,47 @@ def oracle_foreach(ck, rng, n, tables):
         finally:
             W._worker = None
         log = G['log']
+        seen_u = G['seen_u']
         G['log'] = None
+        G['seen_u'] = None
         rep = {'circ': cs, 'pdata': pd, 'filter': name, 'collect': col_spec,
                'body': bodies, 'calc': calc}
         ck.count(('fe', x_circ(before), name, str(col_spec), str(bodies), calc))
-        # the bodies used here can only fail by popping an empty circuit
-        body_fails = False
+        ck.bump('oracle_foreach_body', bkind)
+        # expected selection (own filter) and expected results (own extraction
+        # of the sub-circuit: the gate's circuit WITH the operation's parameters)
+        sel = []
         for cyc, op in before.operations_with_cycles():
             if (default_collection_filter(op) if col is None else col(op)):
-                k = (op.gate._circuit.num_operations
-                     if isinstance(op.gate, CircuitGate) else 1)
+                sel.append((cyc, op))
+        stale = 0
+        exp = []
+        body_fails = False
+        for cyc, op in sel:
+            if isinstance(op.gate, CircuitGate):
+                sub = op.gate._circuit.copy()
+                if list(sub.params) != list(op.params):
+                    stale += 1
+                sub.set_params(op.params)
+            else:
+                sub = Circuit.from_operation(op)
+            old_sub = sub.copy()
+            dd = PassData(sub)
+            try:
                 for acts in bodies:
                     for a in acts:
-                        if a[0] == 'poplast':
-                            if k == 0:
-                                body_fails = True
-                            k -= 1
-                        elif a[0] == 'append':
-                            k += 1
+                        apply_act(a, sub, dd)
+            except Exception:
+                body_fails = True
+            exp.append((old_sub, sub))
+        ck.bump('oracle_foreach_blocks_with_own_params', str(min(stale, 3)))
+        # a block-specific pass-down value is documented as a dict; with a LIST
+        # `i in value` is membership and `value[i]` may be out of range
+        for a in pd:
+            if (a[0] == 'put' and a[1].startswith('ForEachBlockPass_specific_')
+                    and isinstance(a[2], list)):
+                if any(i in a[2] and i >= len(a[2]) for i in range(len(sel))):
+                    body_fails = True
         if out != 'ok':
             if not body_fails:
                 ck.violation(
@@ -1900,27 +2213,50 @@ def oracle_foreach(ck, rng, n, tables):
                     '(model graph with an uncoupled highest qudit? unsorted '
                     'block location?)', rep)
             continue
-        # expected selection (own filter)
-        sel = []
-        for cyc, op in before.operations_with_cycles():
-            pick = (default_collection_filter(op) if col is None else col(op))
-            if pick:
-                sel.append((cyc, op))
+        if body_fails:
+            ck.violation(
+                'foreach-swallows-failure',
+                'a body fails on one of the selected blocks (pop from an '
+                'empty circuit) but ForEachBlockPass returned normally', rep)
+            continue
         # (1) body exactly once per selected block, in order
         per = {}
+        first_seen = {}
         for lid, st in log:
             pt = None
             for kv in st[2][-1][1:]:
                 if kv[0] == 'point':
                     pt = (int(kv[1][1][1]), int(kv[1][2][1]))
             per.setdefault(pt, []).append(lid)
-        want = {(cyc, op.location[0]): list(range(len(leaves))) for cyc, op in sel}
-        if per != want:
+            first_seen.setdefault(pt, st[1])
+        want = {(cyc, op.location[0]): list(range(len(bodies))) for cyc, op in sel}
+        if per != want or sorted(k for k, _ in seen_u) != sorted(want):
             ck.violation(
                 'foreach-body-runs',
-                f'body executions per block {per} != once per selected block '
+                f'body executions per block {per} (reading leaf: '
+                f'{sorted(k for k, _ in seen_u)}) != once per selected block '
                 f'{want}', rep)
             continue
+        # (1a) what each body was handed is the collected operation: the gate's
+        # circuit carrying the OPERATION's current parameters
+        badin = None
+        useen = dict(seen_u)
+        for i, (cyc, op) in enumerate(sel):
+            key = (cyc, op.location[0])
+            want_txt = x_circ(exp[i][0])
+            if first_seen[key] != want_txt:
+                badin = (f'block {i} at {key}: the body was handed '
+                         f'{first_seen[key]}, the collected operation is '
+                         f'{want_txt}')
+                break
+            d = hs_distance(unitary_x(want_txt), useen[key])
+            if d > 1e-6 or unitary_x(want_txt).shape != useen[key].shape:
+                badin = (f'block {i} at {key}: the unitary of the circuit the '
+                         f'body was handed is at distance {d} from the unitary '
+                         f'of the collected operation {x_op(op)}')
+                break
+        if badin:
+            ck.violation('foreach-body-input', badin, rep)
         # (1b) sub-model = induced coupling graph of the connectivity,
         # renumbered by position in op.location; block parameters set
         if sel:
@@ -1937,33 +2273,53 @@ def oracle_foreach(ck, rng, n, tables):
                           for i1 in range(len(loc)) for i2 in range(i1 + 1, len(loc))
                           if tuple(sorted((loc[i1], loc[i2]))) in conn}
                 got_e = {tuple(sorted(e)) for e in bd.model.coupling_graph}
+                want_r = [before.radixes[q] for q in loc]
                 if (got_e != want_e or bd.model.num_qudits != len(loc)
-                        or list(bd.model.radixes) != [before.radixes[q] for q in loc]
+                        or list(bd.model.radixes) != want_r
                         or dict(bd['subnumbering']) != {q: j for j, q in enumerate(loc)}
                         or tuple(bd['point']) != (cyc, loc[0])):
                     badm = (f'block {i} at location {loc}: sub-model edges '
-                            f'{sorted(got_e)}, expected {sorted(want_e)}; '
+                            f'{sorted(got_e)}, expected {sorted(want_e)}; radixes '
+                            f'{list(bd.model.radixes)}, expected {want_r}; '
                             f'subnumbering {dict(bd["subnumbering"])}, point '
                             f'{tuple(bd["point"])}')
             if badm:
                 ck.violation('foreach-submodel', badm, rep)
+                continue
+            # (1c) sub-data: seed of the parent, the error-bound switch, the
+            # documented pass-down keys (general: copied; block-specific: the
+            # entry of block i of a dict value)
+            bads = None
+            for i, (cyc, op) in enumerate(sel):
+                bd = data['ForEachBlockPass_data'][-1][i]
+                if bd.seed != data.seed:
+                    bads = f'block {i}: seed {bd.seed}, the pass data has {data.seed}'
+                if bool(bd['calculate_error_bound']) != calc:
+                    bads = f'block {i}: calculate_error_bound {bd["calculate_error_bound"]}'
+                for a in pd:
+                    if a[0] != 'put' or not a[1].startswith('ForEachBlockPass_'):
+                        continue
+                    if a[1].startswith('ForEachBlockPass_pass_down_'):
+                        if a[1] not in bd or bd[a[1]] != mk_val(a[2]):
+                            bads = f'block {i}: pass-down key {a[1]} not handed down'
+                    elif isinstance(a[2], dict):
+                        v = mk_val(a[2])
+                        if (i in v) != (a[1] in bd) or (i in v and bd[a[1]] != v[i]):
+                            bads = (f'block {i}: block-specific pass-down key '
+                                    f'{a[1]} = {v}: block data has '
+                                    f'{bd[a[1]] if a[1] in bd else "nothing"}')
+            if bads:
+                ck.violation('foreach-subdata', bads, rep)
                 continue
         # (2) write-back
         cells1 = cell_ops(circuit)
         exp_S = 0.0
         bad = None
         accepted = 0
+        repl = {}
         recs = data['ForEachBlockPass_data'][-1] if sel else []
         for i, (cyc, op) in enumerate(sel):
-            sub = (op.gate._circuit.copy() if isinstance(op.gate, CircuitGate)
-                   else Circuit.from_operation(op))
-            if isinstance(op.gate, CircuitGate):
-                sub.set_params(op.params)
-            old_sub = sub.copy()
-            dd = PassData(sub)
-            for acts in bodies:
-                for a in acts:
-                    apply_act(a, sub, dd)
+            old_sub, sub = exp[i]
             acc = doc_filter(name, sub, op, data.model)
             key = (cyc, min(op.location))
             now = cells1.get(key)
@@ -1971,17 +2327,20 @@ def oracle_foreach(ck, rng, n, tables):
                 accepted += 1
                 want_txt = (f'B[{x_circ(sub)}];' + ','.join(map(str, op.location))
                             + ';' + ','.join(map(str, op.radixes)))
+                repl[key] = want_txt
                 if now is None or x_op(now) != want_txt:
-                    bad = (f'accepted result of block {i} at {key} not written '
-                           f'back: found {None if now is None else x_op(now)}, '
-                           f'expected {want_txt}')
+                    bad = bad or (
+                        f'accepted result of block {i} at {key} not written '
+                        f'back: found {None if now is None else x_op(now)}, '
+                        f'expected {want_txt}')
                 if calc:
                     exp_S += hs_distance(unitary_x(x_circ(old_sub)),
                                          unitary_x(x_circ(sub)))
             else:
                 if now is None or x_op(now) != x_op(op):
-                    bad = (f'rejected block {i} at {key} changed: '
-                           f'{None if now is None else x_op(now)} vs {x_op(op)}')
+                    bad = bad or (
+                        f'rejected block {i} at {key} changed: '
+                        f'{None if now is None else x_op(now)} vs {x_op(op)}')
             if sel and bool(recs[i]['replaced']) != acc:
                 bad = bad or f'block {i}: replaced flag {recs[i]["replaced"]} but documented filter {name} says {acc}'
         selkeys = {(cyc, min(op.location)) for cyc, op in sel}
@@ -1997,11 +2356,33 @@ def oracle_foreach(ck, rng, n, tables):
         ck.bump('oracle_foreach_accepted', str(min(accepted, 4)))
         if bad:
             ck.violation('foreach-writeback', bad, rep)
-            continue
+            if set(cells1) != set(cells0):
+                continue
+        # (2b) the WHOLE circuit: its unitary (own embedding of the gate
+        # matrices, and bqskit's simulation) is that of the initial circuit with
+        # exactly the accepted results substituted; identity bodies: unchanged
+        U_exp = unitary_x(expected_text(before, repl))
+        U1_own = unitary_x(x_circ(circuit))
+        U1 = circuit.get_unitary()
+        d_own = hs_distance(U_exp, U1_own)
+        d_bq = hs_distance(U_exp, np.array(U1.numpy))
+        if max(d_own, d_bq) > 1e-6:
+            ck.violation(
+                'foreach-unitary',
+                f'the circuit after the pass is at distance {max(d_own, d_bq)} '
+                'from the initial circuit with the accepted results '
+                f'substituted ({accepted} accepted)', rep)
+        truth_own = hs_distance(U0_own, U1_own)
+        if bkind == 'identity' and truth_own > 1e-6:
+            ck.violation(
+                'foreach-identity-body-changes-circuit',
+                f'a body that does nothing moved the circuit by {truth_own}', rep)
         # (3) error bound
         if calc:
             E1 = float(data.error)
-            truth = circuit.get_unitary().get_distance_from(U0)
+            truth = max(U1.get_distance_from(U0), truth_own)
+            ck.bump('oracle_foreach_distance',
+                    '0' if truth < 1e-7 else '<0.1' if truth < 0.1 else '>=0.1')
             S = exp_S
             if E1 < truth - (E0 * S + NOISE):
                 ck.violation(
@@ -2017,6 +2398,25 @@ def oracle_foreach(ck, rng, n, tables):
                     f'measured block distances of the REPLACED blocks (E={E0}, '
                     f'S={S}); not smaller than the measured distance {truth}',
                     rep, found_input=False)
+        # (4) ClearAllBlockData: "clear all block data and passed down data",
+        # nothing else
+        from bqskit.passes.control.foreach import ClearAllBlockData
+        snap0 = snapshot(circuit, data)
+        keys0 = {k: se_text(se_val(data._data[k])) for k in data._data
+                 if not k.startswith('ForEachBlockPass_')}
+        outc = safe_run(ClearAllBlockData(), circuit, data)
+        snap1 = snapshot(circuit, data)
+        left = [k for k in data._data
+                if k.startswith('ForEachBlockPass_data')
+                or k.startswith('ForEachBlockPass_pass_down_')]
+        keys1 = {k: se_text(se_val(data._data[k])) for k in data._data
+                 if not k.startswith('ForEachBlockPass_')}
+        other = [k for k in snap0 if k != '_data' and snap_diff({k: snap0[k]}, {k: snap1[k]})]
+        if outc != 'ok' or left or keys0 != keys1 or other:
+            ck.violation(
+                'clearall',
+                f'ClearAllBlockData ({outc}) left the keys {left}; other keys '
+                f'changed: {keys0 != keys1}; attributes changed: {other}', rep)
 
 
 # =====================================================================
@@ -2029,20 +2429,27 @@ import fcntl
 @contextlib.contextmanager
 def runtime_lock(max_wait):
     """machine-wide lock: only one real BQSKit runtime at a time (fixed ports);
-    yields False when it could not be taken within max_wait seconds"""
+    yields False when it could not be taken within max_wait seconds.  The wait
+    is a BLOCKING flock interrupted by an alarm (a polling non-blocking attempt
+    starves behind the blocking waiters of other checks)."""
     f = open('/tmp/bqskit_runtime.lock', 'w')
-    t0 = time.time()
     got = False
     try:
-        while True:
-            try:
-                fcntl.flock(f, fcntl.LOCK_EX | fcntl.LOCK_NB)
-                got = True
-                break
-            except OSError:
-                if time.time() - t0 > max_wait:
-                    break
-                time.sleep(0.5)
+        try:
+            fcntl.flock(f, fcntl.LOCK_EX | fcntl.LOCK_NB)
+            got = True
+        except OSError:
+            if max_wait > 0:
+                old = signal.signal(signal.SIGALRM, _alarm)
+                signal.alarm(int(max_wait))
+                try:
+                    fcntl.flock(f, fcntl.LOCK_EX)
+                    got = True
+                except Timeout:
+                    pass
+                finally:
+                    signal.alarm(0)
+                    signal.signal(signal.SIGALRM, old)
         yield got
     finally:
         if got:
@@ -2224,9 +2631,11 @@ def run(ck):
     n_control = 2500 if thorough else 220
     n_foreach = 1500 if thorough else 130
     n_malformed = 200 if thorough else 30
+    n_reparam = 600 if thorough else 90
     dev = float(os.environ.get('C11_DEV_SCALE', '1'))     # development only
     n_control, n_foreach, n_malformed = (int(n_control * dev), int(n_foreach * dev),
                                          int(n_malformed * dev))
+    n_reparam = int(n_reparam * dev)
 
     cases = []
     for _ in range(n_control):
@@ -2237,6 +2646,16 @@ def run(ck):
             calc=True if i % 3 == 0 else None))
     for _ in range(n_malformed):
         cases.append(malformed_case(rng))
+    for _ in range(n_reparam):
+        cases.append(gen_reparam_case(rng))
+    # every foreach / malformed case whose circuit has parameterised blocks is
+    # ALSO run in a re-parameterised variant (same tree, leaves, PassData)
+    twins = []
+    for case in cases:
+        if case['kind'] in ('foreach', 'malformed') and has_param_blocks(case['circ']):
+            twins.append(dict(case, circ=reparam_twin(rng, case['circ']),
+                              kind=case['kind'] + '-twin'))
+    cases += twins
 
     batch = []
     for case in cases:
@@ -2246,6 +2665,8 @@ def run(ck):
             ck.bump('skipped', 'initial-state-' + type(e).__name__)
             continue
         batch.append((case, circuit, data))
+        ck.bump('initial_blocks_with_own_params',
+                case['kind'] + ':' + str(min(count_own_params(circuit), 3)))
     reps = model_run(ck, batch, tables)
     disagreements = []
     for (case, circuit, data), rep in zip(batch, reps):
@@ -2256,6 +2677,8 @@ def run(ck):
         ck.count((case['kind'], t_tree(case['tree']), json.dumps(case['circ']),
                   tuple(case['script'])), nontrivial=len(log) >= 1)
         ck.bump('outcomes', case['kind'] + ':' + ('ok' if out == 'ok' else 'raised'))
+        ck.bump('radixes', ('qubits' if set(case['circ']['radixes']) <= {2}
+                            else 'mixed') + ':' + ('ok' if out == 'ok' else 'raised'))
         ck.bump('trace_len', str(min(len(log), 12)))
         ck.coverage['traces_validated_against_impl'] += 1
         d = compare_case(case, rep, out, log, left, circuit, data)
@@ -2269,7 +2692,7 @@ def run(ck):
     oracle_control(ck, rng, 600 if thorough else 120)
     oracle_restore(ck, rng, 240 if thorough else 48)
     oracle_decisions(ck, rng, 300 if thorough else 60)
-    oracle_foreach(ck, rng, 600 if thorough else 100, tables)
+    oracle_foreach(ck, rng, 700 if thorough else 150, tables)
 
     for c_, d_ in batch_replace_cases(ck, rng, 2000 if thorough else 150):
         disagreements.append((dict(c_, tree=('leaf', 0)), d_))
@@ -2293,18 +2716,28 @@ def run(ck):
     ck.coverage['rule'] = (
         'each case = one generated pass tree (depth <= 4, all nine constructs, '
         'real And/Or/Not/Width/GateCount/Change and scripted predicates) run on '
-        'one generated circuit (1-5 qudits, circuit-gate blocks at sorted and '
-        'unsorted locations, blocks alone in a cycle via insert, nested blocks) '
+        'one generated circuit (1-5 qudits, a quarter with qutrits; circuit-gate '
+        'blocks at sorted and unsorted locations, blocks alone in a cycle via '
+        'insert, nested blocks; a third re-parameterised after the blocks were '
+        'formed - set_params / set_param of the outer circuit, block operations '
+        'with their own parameter vector, one CircuitGate object used with '
+        'several vectors - so that operation parameters differ from the ones '
+        'frozen in the gate) '
         'with one generated PassData (model with possibly uncoupled qudits, '
         'placement, mappings, seed, error, pass-down keys) and one script, '
         'through the real control passes and the Lean interpreter; compared: '
         'outcome, executed leaves with the state each saw, final circuit, all '
         'PassData fields (block data recursively), script consumption. '
-        'Further case families: malformed (invalid placement, unknown filter, '
+        'Further case families: re-parameterised (ForEach alone / twice around '
+        'a parameter-tuning leaf / nested / under DoThenDecide and ParallelDo, '
+        'bodies that do nothing, only read, perturb parameters, replace the '
+        'circuit), malformed (invalid placement, unknown filter, '
         'empty circuit, raising body), direct batch_replace calls (same / other '
         'locations / malformed points), real-Compiler runs, and the direct '
         'oracles (reference interpreter, restore snapshots, decisions, '
-        'foreach write-back / sub-model / error bound). distinct = distinct '
+        'foreach body input / once per block / sub-model / sub-data / write-back '
+        '/ whole-circuit unitary / identity body / error bound / ClearAllBlockData). '
+        'distinct = distinct '
         '(family, tree, circuit, script or arguments); non-trivial = at least '
         'one leaf pass executed (control families) / every case (others)')
     ck.assumptions += [
